@@ -228,6 +228,56 @@ def _lookup_job(job):
     return plat, n, bad
 
 
+def _item_row(a):
+    dd = a._decl
+    return [dd["cls"], dd["type"], dd["pos"], dd["bitpos"], dd["items"], dd["size"], dd["maxitems"], dd["rw"],
+            a.length, getattr(a, "bitmask", None) if dd["bitpos"] is not None else None, a.tag]
+
+
+def _rebuild_job(job):
+    """A published layout is what a client gets whenever it selects that platform/version - also on a structure that
+    carried other tables before (re-handshake after a firmware update, the simulator loading another image): ONE
+    long-lived structure of each class walks the version pairs of a platform up and down and then hops to the next
+    platform; after every build_accessors each item of the structure is compared with the module's own layout."""
+    plat, pairs, nxt = job
+    from geckolib.driver import GeckoAsyncStructure
+
+    bad = []
+    n = 0
+    for which, st in (("sync", GeckoStructure(lambda *a: None)), ("async", GeckoAsyncStructure(lambda *a: None, None))):
+        walk = [(plat, c, l) for c, l in pairs] + [(plat, c, l) for c, l in reversed(pairs)]
+        if nxt is not None:
+            walk += [nxt, (plat,) + tuple(pairs[0])]
+        prev = None
+        for (pl, cfg, log) in walk:
+            cm = lib.pack_module(f"{pl}-cfg-{cfg}")
+            lm = lib.pack_module(f"{pl}-log-{log}")
+            fresh = GeckoStructure(lambda *a: None)
+            want = {}
+            for tag, a in dict(cm.GeckoConfigStruct(fresh).accessors, **lm.GeckoLogStruct(fresh).accessors).items():
+                want[tag] = _item_row(a)
+            cc, lc = cm.GeckoConfigStruct(st), lm.GeckoLogStruct(st)
+            st.build_accessors(cc, lc)
+            n += 1
+            got = {tag: _item_row(a) for tag, a in st.accessors.items()}
+            if sorted(got) != sorted(want):
+                bad.append((f"rebuild|{which}", f"{which} structure after {prev} -> {(pl, cfg, log)}: item set differs "
+                                                f"({sorted(set(got) ^ set(want))[:5]})"))
+                break
+            diff = [t for t in want if json.loads(json.dumps(got[t])) != json.loads(json.dumps(want[t]))]
+            if diff:
+                t = diff[0]
+                bad.append((f"rebuild|{which}", f"{which} structure after {prev} -> {(pl, cfg, log)}: {len(diff)} item(s) do not have the "
+                                                f"published layout, e.g. {t}: {got[t][:4]} instead of {want[t][:4]}"))
+                break
+            if (list(st.all_outputs), list(st.all_devices), list(st.user_demands), list(st.error_keys)) != (
+                    list(cc.output_keys), list(lc.all_device_keys), list(lc.user_demand_keys), list(lc.error_keys)):
+                bad.append((f"rebuild|{which}", f"{which} structure after {prev} -> {(pl, cfg, log)}: key lists are not the new tables'"))
+                break
+            prev = (pl, cfg, log)
+    return plat, n, bad
+
+
 def load_pin():
     files = sorted(glob.glob(os.path.join(PINS, "layout-*.json.gz")))
     if not files:
@@ -343,6 +393,23 @@ def run(ctx):
             ctx.violation(f"C18|{cls}|{plat}", text, {"module": plat, "mode": "lookup"})
     evals += nl
     ctx.set("client_lookups", nl)
+    rjobs = []
+    pl_list = [p for p, v in plats.items() if v["cfg"] and v["log"]]
+    for i, plat in enumerate(pl_list):
+        v = plats[plat]
+        m = max(len(v["cfg"]), len(v["log"]))
+        # cfg and log versions advance together (shorter list repeats its last), then every cfg with the first log
+        pairs = [(v["cfg"][min(k, len(v["cfg"]) - 1)], v["log"][min(k, len(v["log"]) - 1)]) for k in range(m)]
+        pairs += [(c, l) for c in v["cfg"] for l in v["log"]]
+        o = pl_list[(i + 1) % len(pl_list)]
+        rjobs.append((plat, pairs, (o, plats[o]["cfg"][-1], plats[o]["log"][-1])))
+    nr = 0
+    for plat, n, bad in core.pmap(ctx, _rebuild_job, rjobs, chunksize=1):
+        nr += n
+        for cls, text in bad:
+            ctx.violation(f"C18|{cls}|{plat}", text, {"module": plat, "mode": "rebuild"})
+    evals += nr
+    ctx.set("rebuilds_on_live_structures", nr)
     ctx.set("modules", len(names))
     ctx.set("items", nitems)
     ctx.set("pin", pinfile)
@@ -360,6 +427,19 @@ def run(ctx):
 
 
 def replay(ctx, data):
+    if data.get("mode") == "rebuild":
+        plats = lib.platforms()
+        pl_list = [p for p, v in plats.items() if v["cfg"] and v["log"]]
+        plat = data["module"]
+        v = plats[plat]
+        o = pl_list[(pl_list.index(plat) + 1) % len(pl_list)]
+        p_, n, bad = _rebuild_job((plat, [(c, l) for c in v["cfg"] for l in v["log"]], (o, plats[o]["cfg"][-1], plats[o]["log"][-1])))
+        for cls, text in bad:
+            ctx.violation(f"C18|{cls}|{plat}", text, data)
+        ctx.set("evaluations", 1)
+        ctx.set("distinct_nontrivial", 2)
+        ctx.set("rule", "replay")
+        return
     if data.get("mode") == "lookup":
         plat = data["module"]
         v = lib.platforms()[plat]
